@@ -199,7 +199,11 @@ var specs = []spec{
 		AccessTypes: []string{"*"}, AccessTypePkgs: []string{"pkg/codecs"},
 		Rule:        "all interleavings with at most b deviations (preemptions / non-default select preferences; b=3 quick, 5 thorough, unbounded for the smallest scenarios; points at every mutex acquire/release, channel close, select) of a producer (k pushes, waitUntilSizeIsBelow(n) after each), a consumer (m pulls) and an optional canceller on the real clientSegmentQueue, with and without the end-of-stream marker (push(nil)), with bursts of 2-4 pushes before a wait (a successful wait leaves at most n segments queued), the real downloader / processor / Close of streams that end under the same scheduler (hidden spec C20-e2e: one Close placed at every decision point, three canonical schedules), plus end-to-end look-ahead scenarios with the real downloader and processor (VOD, live, and live playlists carrying Low-Latency tags that do not select the Low-Latency mode: server control without CAN-BLOCK-RELOAD plus a preload hint, CAN-BLOCK-RELOAD without a hint); every explored execution is also checked by the happens-before race monitor (every field of every struct of the package); distinct = distinct (scenario, final observation) pairs",
 		Assumptions: schedAssumptions},
-	{ID: "C17", Pkg: "pkg/storage", Level: "model_checking", Procs: 8, MemKB: 10 * 1024 * 1024,
+	{ID: "C17-sched", Prop: "C17", HarnessKey: "C17-sched", Hidden: true, Pkg: ".", Level: "model_checking", Instrument: true, Procs: 1,
+		InstrPkgs:   []string{".", "pkg/storage"},
+		StmtPoints:  []string{"partDisk.Reader", "fileDisk.Finalize", "fileDisk.Reader", "fileDisk.NewPart", "fileRAM.Finalize", "fileRAM.Reader", "partRAM.Reader"},
+		Assumptions: schedAssumptions},
+	{ID: "C17", Pkg: "pkg/storage", Level: "model_checking", Procs: 8, MemKB: 10 * 1024 * 1024, Also: []string{"C17-sched"},
 		Rule:        "explicit-state BFS over storage operation sequences (NewPart, Write, Write after a refused Seek, rewrite of the previous part's head through its kept writer, Seek, Finalize, Size, open/read readers with several buffer sizes and with io.Copy, Remove - also before Finalize, with a listing of the directory afterwards) applied to the real RAM and disk back ends (the disk file created in an empty directory or over a longer stale file of the same name) and a [][]byte model; a state is the exact observable state (part contents, writer position, finalized/removed flags, open readers with offsets); distinct = distinct state keys",
 		Assumptions: append([]string{"alphabet restricted to the documented usage: a part is written through one Writer while it is the last allocated part; seeks stay within written bytes"}, commonAssumptions...)},
 }
